@@ -27,7 +27,7 @@ def confirm(prop, rnd=''):
             d = os.path.join(src, i)
             if not os.path.exists(os.path.join(d, 'patch.diff')):
                 continue
-            name = '%s-%s%s' % (prop, 'r2-' if rnd else '', i)
+            name = '%s-%s%s' % (prop, ('r%s-' % rnd) if rnd else '', i)
             meta = {'property': prop, 'seed': name, 'confirmed_at': time.strftime('%Y-%m-%dT%H:%M:%SZ', time.gmtime())}
             ran = []
             sh('git checkout -- . && rm -f tests/demo_seed.rs', cwd=wt)
@@ -98,8 +98,8 @@ if __name__ == '__main__':
     if sys.argv[1] == 'confirm':
         for p in sys.argv[2:]:
             confirm(p)
-    elif sys.argv[1] == 'confirm2':
+    elif sys.argv[1].startswith('confirm') and sys.argv[1][7:].isdigit():
         for p in sys.argv[2:]:
-            confirm(p, '2')
+            confirm(p, sys.argv[1][7:])
     elif sys.argv[1] == 'run':
         run(sys.argv[2:])
